@@ -33,7 +33,7 @@ alone) rather than ones ordinary use would expose at once. Each change should be
 Note: the unchanged tree may ALREADY violate this property in some ways; your change must introduce a NEW,
 different violation: your demonstration must PASS on the unchanged tree and FAIL with your change.
 
-{"DIVERSITY: others have already tried the most obvious one-line changes in the most central function of this property. Look further afield: helper functions and accessors the central code relies on, error and fallback paths, rarely used statement forms, state that survives between calls (caches, counters, flags, shared mutable defaults), two cooperating sites that each look fine alone, conversions applied on one path but not on its sibling, behaviour at boundaries (empty, zero, last element, equal names, negative values). Each of your changes should touch a DIFFERENT function." if variant == "diverse" else ("DIVERSITY: many one-line changes in the central functions of this property, and in their obvious helpers, have been tried already. Yours should be of these kinds: (1) a change in a module the property depends on only indirectly (look at what the anchored files import and call: lib/, controller/, vm/, parser/ helpers, data classes, enums and tables); (2) a change that is correct for every single call but wrong for a particular ORDER of two or three calls or statements; (3) a change to a default, a constant, a table entry, a regular expression or a comparison boundary that only an unusual value reaches; (4) a refactoring that looks behaviour-preserving (extracting a helper, caching, reordering statements, replacing a loop by a comprehension, using a different but similar library call) and is not. Each of your changes should be of a different kind and touch a different function." if variant == "deep" else ("DIVERSITY: the central functions of this property, their direct helpers, caches added to them, and the obvious unit-conversion, clock, injection, symbol-table and lexer changes have all been tried. Find changes that are FAR from the obvious: (1) in code at least two calls away from the functions named in the anchored files (follow the imports: bardolph/lib/*, bardolph/controller/*, bardolph/runtime/*, bardolph/vm/* helpers, web/*, data classes such as Instruction, Routine, Symbol, Token, Rect, ColorMatrix); (2) in the way objects are constructed, copied, compared or hashed (__init__, __eq__, copy, default arguments, class attributes shared between instances); (3) in what happens at the edges of a run: first use, second use of the same object, empty collections, a name used in two roles, the last element, a value of an unexpected but legal type (bool where a number is expected, int where a float is expected, an empty string); (4) in error handling: an exception class widened or narrowed, a return value of an error path changed, a log call that now raises. Each of your changes must touch a different FILE." if variant == "wide" else ("DIVERSITY: a dozen changes per property have been tried already: the central functions, their helpers, caches, unit conversions, clocks, injection, symbol tables, lexer rules, constructors and shared class attributes. Yours should be of these kinds: (1) the AGREEMENT between two components: the code generator emits an instruction whose parameters the VM reads in a different shape or order, an Operand / OpCode / Register / TokenTypes member used where its sibling is meant, a job or web layer passing a different key than the layer below expects; (2) NUMERIC edge cases: negative numbers, zero, a value exactly at a range boundary, float where int is usual, very large values, rounding direction, wrap-around; (3) state of a long-lived object (Machine, Parser, CodeGen, JobControl, LightSet, Clock, WebApp, CallStack, Lex) that is not reset, or reset too eagerly, between two uses; (4) iteration ORDER, sorting, de-duplication and aliasing: a list returned instead of a copy, a dict iterated in insertion order where sorted order is promised, the same object appended twice; (5) a condition that is right for one kind of light / unit mode / operand and wrong for its sibling (multi-zone vs. single, raw vs. logical vs. rgb, group vs. location, define vs. assign, global vs. local). Each of your changes must be of a different kind and touch a different function." if variant == "edge" else ("DIVERSITY: about fifteen changes per property have been tried already, in every central function. Yours should be of these kinds: (1) a TABLE or ENUM entry: the keyword table of the lexer, the register list, OpCode / Operand / Operator / Register / LoopVar members and the dictionaries keyed by them (operator precedences, handler maps, conversion-function maps), a regular expression; (2) CLEAN-UP and ORDER: a finally block, a lock released too early or not at all on one path, a flag cleared before instead of after a call, two statements swapped whose order only matters on a failure path; (3) a RETURN-VALUE convention: None where False is expected or the reverse, a truthy value on a failure path, a result computed and then not returned on one branch, an exception swallowed that the caller relies on; (4) TEXT: quoting and escaping when text is generated (captured scripts, HTML, format strings, log messages containing braces), upper / lower case, leading and trailing blanks, empty strings, line ends; (5) an ARITHMETIC boundary: inclusive vs exclusive ends of ranges, rounding to nearest vs truncation, modulo of negative numbers, percentages at exactly 0 and 100, 65535 vs 65536, seconds vs milliseconds. Each of your changes must be of a different kind and touch a different function." if variant == "tables" else ""))))}
+{"DIVERSITY: others have already tried the most obvious one-line changes in the most central function of this property. Look further afield: helper functions and accessors the central code relies on, error and fallback paths, rarely used statement forms, state that survives between calls (caches, counters, flags, shared mutable defaults), two cooperating sites that each look fine alone, conversions applied on one path but not on its sibling, behaviour at boundaries (empty, zero, last element, equal names, negative values). Each of your changes should touch a DIFFERENT function." if variant == "diverse" else ("DIVERSITY: many one-line changes in the central functions of this property, and in their obvious helpers, have been tried already. Yours should be of these kinds: (1) a change in a module the property depends on only indirectly (look at what the anchored files import and call: lib/, controller/, vm/, parser/ helpers, data classes, enums and tables); (2) a change that is correct for every single call but wrong for a particular ORDER of two or three calls or statements; (3) a change to a default, a constant, a table entry, a regular expression or a comparison boundary that only an unusual value reaches; (4) a refactoring that looks behaviour-preserving (extracting a helper, caching, reordering statements, replacing a loop by a comprehension, using a different but similar library call) and is not. Each of your changes should be of a different kind and touch a different function." if variant == "deep" else ("DIVERSITY: the central functions of this property, their direct helpers, caches added to them, and the obvious unit-conversion, clock, injection, symbol-table and lexer changes have all been tried. Find changes that are FAR from the obvious: (1) in code at least two calls away from the functions named in the anchored files (follow the imports: bardolph/lib/*, bardolph/controller/*, bardolph/runtime/*, bardolph/vm/* helpers, web/*, data classes such as Instruction, Routine, Symbol, Token, Rect, ColorMatrix); (2) in the way objects are constructed, copied, compared or hashed (__init__, __eq__, copy, default arguments, class attributes shared between instances); (3) in what happens at the edges of a run: first use, second use of the same object, empty collections, a name used in two roles, the last element, a value of an unexpected but legal type (bool where a number is expected, int where a float is expected, an empty string); (4) in error handling: an exception class widened or narrowed, a return value of an error path changed, a log call that now raises. Each of your changes must touch a different FILE." if variant == "wide" else ("DIVERSITY: a dozen changes per property have been tried already: the central functions, their helpers, caches, unit conversions, clocks, injection, symbol tables, lexer rules, constructors and shared class attributes. Yours should be of these kinds: (1) the AGREEMENT between two components: the code generator emits an instruction whose parameters the VM reads in a different shape or order, an Operand / OpCode / Register / TokenTypes member used where its sibling is meant, a job or web layer passing a different key than the layer below expects; (2) NUMERIC edge cases: negative numbers, zero, a value exactly at a range boundary, float where int is usual, very large values, rounding direction, wrap-around; (3) state of a long-lived object (Machine, Parser, CodeGen, JobControl, LightSet, Clock, WebApp, CallStack, Lex) that is not reset, or reset too eagerly, between two uses; (4) iteration ORDER, sorting, de-duplication and aliasing: a list returned instead of a copy, a dict iterated in insertion order where sorted order is promised, the same object appended twice; (5) a condition that is right for one kind of light / unit mode / operand and wrong for its sibling (multi-zone vs. single, raw vs. logical vs. rgb, group vs. location, define vs. assign, global vs. local). Each of your changes must be of a different kind and touch a different function." if variant == "edge" else ("DIVERSITY: about fifteen changes per property have been tried already, in every central function. Yours should be of these kinds: (1) a TABLE or ENUM entry: the keyword table of the lexer, the register list, OpCode / Operand / Operator / Register / LoopVar members and the dictionaries keyed by them (operator precedences, handler maps, conversion-function maps), a regular expression; (2) CLEAN-UP and ORDER: a finally block, a lock released too early or not at all on one path, a flag cleared before instead of after a call, two statements swapped whose order only matters on a failure path; (3) a RETURN-VALUE convention: None where False is expected or the reverse, a truthy value on a failure path, a result computed and then not returned on one branch, an exception swallowed that the caller relies on; (4) TEXT: quoting and escaping when text is generated (captured scripts, HTML, format strings, log messages containing braces), upper / lower case, leading and trailing blanks, empty strings, line ends; (5) an ARITHMETIC boundary: inclusive vs exclusive ends of ranges, rounding to nearest vs truncation, modulo of negative numbers, percentages at exactly 0 and 100, 65535 vs 65536, seconds vs milliseconds. Each of your changes must be of a different kind and touch a different function." if variant == "tables" else ("DIVERSITY: about eighteen changes per property have been tried already, in every central function, table, constructor and clean-up path. Look for what is LEFT: (1) functions in the anchored files (and the modules they import) that are only reached by an unusual statement form, option or setting - read the whole file for the least-travelled branch; (2) INTERACTIONS of two features each of which works alone (a routine call inside a matrix block, a break inside an if inside a loop over groups, units switched inside a routine, printf inside a loop with a named field that is the loop variable, a time pattern held in a macro used after `or`); (3) a change that is only wrong the SECOND time (second call, second iteration, second script, second request) or only the FIRST time; (4) a default parameter value, an optional argument passed positionally to the wrong slot, a keyword argument dropped. Each of your changes must be of a different kind and touch a different function." if variant == "left" else "")))))}
 
 For each change k = 1..{n} create a directory {wt}/SEED/k/ containing:
   - patch.diff : output of `git diff` for that change alone, relative to the unchanged tree (so that
